@@ -37,6 +37,7 @@ class SymWorld(S.World):
         self.xp = S
         self.ld_rules = {}      # LD atom name -> (batch IVs, value expr)
         self.ld_rules_by_key = {}
+        self.inv_rewrites = {}   # Inv atom name -> (batch IVs, row, col, expr)
         self.hints_used = []
         self.assumptions = set()
         S.set_world(self)
@@ -91,8 +92,84 @@ class SymWorld(S.World):
     def ld_rule(self, matrix, value, lemma):
         MX.add_logdet_rule(self, matrix, value, lemma)
 
+    def have_inverse(self, X, E, lemma):
+        """ghost step `have Inv[X] == E by multiply` (DESIGN §3.4): the kernel proves E·X == I without using the
+        relation of the atom being eliminated, then Inv[X] is rewritten to E everywhere.  Returns True if proved."""
+        t0 = time.time()
+        X = X.fresh_copy()
+        inv, _ = MX.intern_matrix(self, X.fresh_copy(), True)
+        rec = None
+        for r in self.inv_registry.values():
+            if r.get("registered") and K.atoms_of(inv.expr) == {r["inv"]}:
+                rec = r
+        if rec is None:
+            # Inv[X] is a partner atom or diagonal: nothing to eliminate, check the identity directly
+            ok = self.equal(f"hint/{lemma}", S.einsum("...ij,...jk->...ik" if False else _mm(X), E, X), S.eye(X.shape[-1]), broadcast=True)
+            return ok
+        name = rec["inv"]
+        rel = self.ctx.inv_rel[name]
+        rel["disabled"] = True
+        ok = False
+        others = [n for n in self.ctx.inv_rel if n != name]
+        tried = 0
+        try:
+            prod = S.einsum(_mm(X), E, X)
+            eye = S._broadcast_op([S.zeros_like(prod), S.eye(X.shape[-1])], lambda es: es[1])
+            okk, detail = self._equal(prod, eye)
+            ok = okk
+            if not ok:
+                # search head orientations of the other Inv relations (each rewrite is a valid equality)
+                for o in others:
+                    R = self.ctx.inv_rel[o]
+                    saved = R["head"]
+                    for h in range(len(R["terms"])):
+                        if h == saved:
+                            continue
+                        R["head"] = h
+                        tried += 1
+                        okk, detail = self._equal(prod, eye)
+                        if okk:
+                            ok = True
+                            break
+                    if ok:
+                        break
+                    R["head"] = saved
+        finally:
+            rel["disabled"] = False
+        self.results.append(ClauseResult(f"hint/{lemma}", ok, "" if ok else "multiply check failed:\n" + detail,
+                                         time.time() - t0, "kernel-hint"))
+        if ok:
+            Ef = E.fresh_copy()
+            comps = [c for a in Ef.axes[:-2] for c in a.comps]
+            # batch IVs in the order the Inv atom uses them
+            Xf = X
+            row, col = Ef.axes[-2].comps[0], Ef.axes[-1].comps[0]
+            # map E's batch comps to positions of rec['batch'] by matching X's axes
+            occ_sorts = [v.sort for v in rec["batch"]]
+            # recompute occurring batch comps of X in E's own variables
+            Xe = X.fresh_copy()
+            m = {}
+            for a, b in zip(Xe.axes, Ef.axes):
+                m.update(zip(a.comps, b.comps))
+            p = K.normalize(K.subst(Xe.expr, m), self.ctx)
+            free = K._free_ivs_of_canon(p)
+            occurring = [v for v in comps if any(v is u for u in free)]
+            self.inv_rewrites[name] = (occurring, row, col, Ef.expr)
+            self.hints_used.append(lemma)
+        return ok
+
     # ---- LogDet rewriting (lemma hints)
     def _apply_ld_rules(self, e):
+        for _ in range(8):
+            names = K.atoms_of(e) & set(self.inv_rewrites)
+            if not names:
+                break
+            fm = {}
+            for n in names:
+                batch, row, col, val = self.inv_rewrites[n]
+                fm[n] = (lambda idx, batch=batch, row=row, col=col, val=val:
+                         K.rename_bound(K.subst(val, dict(zip(list(batch) + [row, col], idx)))))
+            e = K.rewrite_atoms(e, fm)
         for _ in range(8):
             names = K.atoms_of(e) & set(self.ld_rules)
             if not names:
@@ -163,6 +240,12 @@ class SymWorld(S.World):
             return True
         self.results.append(ClauseResult(name, False, "did not raise", time.time() - t0, "raise"))
         return False
+
+
+def _mm(X):
+    n = X.ndim
+    letters = "abcdefgh"[: n - 2]
+    return f"{letters}ij,{letters}jk->{letters}ik"
 
 
 class NumWorld:
@@ -260,6 +343,11 @@ class NumWorld:
 
     def ld_rule(self, matrix, value, lemma):
         pass
+
+    def have_inverse(self, X, E, lemma):
+        np = self.np
+        prod = np.asarray(E) @ np.asarray(X)
+        return self.equal(f"hint/{lemma}", prod, np.broadcast_to(np.eye(prod.shape[-1]), prod.shape))
 
     def equal(self, name, code, spec, note="", broadcast=False):
         np = self.np
